@@ -3,6 +3,6 @@ SPECIFICATION Spec
 CONSTANTS
   FieldTypes <- Core
   MaxFields = 4
-INVARIANTS ReportTiles ReportAltTiles TopTiles ReportAligned FieldsWellPlaced OptimizeLaws OptimizeRNeverGrows Emit
+INVARIANTS ReportTiles ReportAltTiles TopTiles ReportAligned FieldsWellPlaced OptimizeLaws OptimizeRNeverGrows OptimizeAltNeverGrows Emit
 PROPERTY AppendStable
 CHECK_DEADLOCK FALSE
